@@ -48,7 +48,7 @@ Proof.
   all: pose proof (ecs1_tr s) as H; rewrite E in H; exact H.
 Qed.
 Lemma st2_ts f s : ts (st2 f s) = ts s.
-Proof. unfold st2. destruct (_ && _ && _ && _)%bool; reflexivity. Qed.
+Proof. unfold st2. destruct (_ && _ && _)%bool; reflexivity. Qed.
 Lemma st3_tr b s : tr (ts s) (ts (fst (st3 b s))).
 Proof.
   unfold st3. destruct b; [|apply tr_refl].
